@@ -131,7 +131,7 @@ func ablob(epoch int64, cid, from []byte) []byte {
 }
 
 // newWorldWithState deploys the given contract set and drives every contract into a non-trivial state.
-func newWorldWithState(b *runner.Batch, n int, set world.Set, containers int) (*uenv, error) {
+func newWorldWithState(b *runner.Batch, n int, set world.Set, containers int, snapCount ...int64) (*uenv, error) {
 	w, err := world.New(world.Options{N: n, Seed: b.Seed, Batch: b.Index})
 	if err != nil {
 		return nil, err
@@ -193,7 +193,21 @@ func newWorldWithState(b *runner.Batch, n int, set world.Set, containers int) (*
 					return err
 				}
 			}
-			for ep := int64(1); ep <= int64(3+r.IntN(10)); ep++ {
+			// a history length other than the deployed default (seeded change C16-3: a migration loop bounded by the default)
+			c := runner.Pick(r, []int64{10, 10, 3, 12, 15})
+			ticks := int64(3 + r.IntN(14))
+			if len(snapCount) > 0 && snapCount[0] > 0 {
+				c, ticks = snapCount[0], snapCount[0]+2
+			}
+			if c != 10 {
+				if err := ok(w.Invoke(A, w.H("netmap"), "updateSnapshotCount", c), "updateSnapshotCount"); err != nil {
+					return err
+				}
+				if ticks >= c {
+					b.Hit(fmt.Sprintf("netmap-history-of-%d-filled", c))
+				}
+			}
+			for ep := int64(1); ep <= ticks; ep++ {
 				if err := ok(w.Invoke(A, w.H("netmap"), "newEpoch", ep), "tick"); err != nil {
 					return err
 				}
@@ -399,6 +413,7 @@ type variant struct {
 	v          int64
 	notary     string // absent | false | true-empty | true-stale | true-pending   (only for v < 17000)
 	legacyKeys bool   // container: un-prefixed keys
+	snapCount  int64  // netmap: history length set before the ticks (0: PRNG-chosen), with enough ticks to fill it
 }
 
 func serialize(it stackitem.Item) []byte {
@@ -595,7 +610,7 @@ func runSynthetic(b *runner.Batch, art string, vr variant, containers int) {
 		b.Inconclusive(err.Error())
 		return
 	}
-	e, err := newWorldWithState(b, 1, b.Set, containers)
+	e, err := newWorldWithState(b, 1, b.Set, containers, vr.snapCount)
 	if err != nil {
 		b.Inconclusive(err.Error())
 		return
@@ -851,6 +866,17 @@ func runC16(b *runner.Batch) {
 				return
 			}
 		}
+		if p.art == "netmap" {
+			// histories longer and shorter than the deployed default, completely filled, from the oldest layouts
+			for _, c := range []int64{12, 3} {
+				for _, v := range []int64{vs.prev, 16_500} {
+					runSynthetic(b, p.art, variant{v: v, notary: "absent", legacyKeys: true, snapCount: c}, 2)
+					if b.NViolations() > 0 {
+						return
+					}
+				}
+			}
+		}
 		if hasNotarySwitch[p.art] {
 			for _, nk := range notaryKinds {
 				runSynthetic(b, p.art, variant{v: 16_500, notary: nk, legacyKeys: true}, 2)
@@ -896,7 +922,7 @@ func init() {
 		Batches: func(t string) int { return len(plans(t)) },
 		Helpers: []string{"probe", "shim"}, Chunk: 2,
 		Prepare: prepareLow,
-		Floors: []string{"gate-refused:nobody", "gate-refused:single-member", "gate-refused:alphabet", "gate-refused:chain-majority", "gate-refused:inner-ring-majority", "gate-accepted:balance", "gate-accepted:container", "gate-accepted:netmap", "gate-accepted:nns", "gate-accepted:neofs", "gate-accepted:processing", "gate-accepted:proxy", "gate-accepted:alphabet", "gate-accepted:audit", "gate-accepted:neofsid", "gate-accepted:reputation", "gate-same-version-refused", "gate-refused:dismissed-inner-ring-majority", "gate-accepted-after-rotation",
+		Floors: []string{"gate-refused:nobody", "gate-refused:single-member", "gate-refused:alphabet", "gate-refused:chain-majority", "gate-refused:inner-ring-majority", "gate-accepted:balance", "gate-accepted:container", "gate-accepted:netmap", "gate-accepted:nns", "gate-accepted:neofs", "gate-accepted:processing", "gate-accepted:proxy", "gate-accepted:alphabet", "gate-accepted:audit", "gate-accepted:neofsid", "gate-accepted:reputation", "gate-same-version-refused", "gate-refused:dismissed-inner-ring-majority", "gate-accepted-after-rotation", "netmap-history-of-12-filled", "netmap-history-of-3-filled",
 			"bounds-refused:too-old", "bounds-refused:not-older", "bounds-refused:pending-vote", "upgrade-ok:<0.16", "upgrade-ok:<0.17", "upgrade-ok:<0.18", "upgrade-ok:<0.19", "upgrade-ok:<0.20", "notary-flag:true-stale", "notary-flag:true-empty", "notary-flag:false", "version-bounds:nns", "version-bounds:balance", "dump-upgraded"},
 		Run: runC16,
 	})
